@@ -152,6 +152,15 @@ func TestCloudStageHistories(t *testing.T) {
 						c.Value = float64(rapid.IntRange(1, 9).Draw(t, "twin-value"))
 						pts = append(pts, c)
 					}
+					// a datapoint without a source that carries the literal tag s:<address> under another name: its tags key reads
+					// like that of a datapoint from that address, and it is still a datapoint with no source to look up
+					if m.Source != "" && rapid.IntRange(0, 3).Draw(t, "source-like-tag") == 0 {
+						c := gen.CopyMetric(m)
+						c.Name = m.Name + ".srctag"
+						c.Tags = append(c.Tags, "s:"+string(m.Source))
+						c.Source = ""
+						pts = append(pts, c)
+					}
 				}
 				mm := gen.MapFromMetrics(pts)
 				var newly []gostatsd.Source
